@@ -39,11 +39,18 @@ def sx_str(tag, s):
 
 # ---- annotations -------------------------------------------------------------------------
 
+# annotation values that are not syntax tokens but are easily mistaken for one: Token is an IntEnum, so 3, 6, True and 2.0 compare (and
+# hash) equal to members; a list and a dict are not even hashable; a str that spells a member's name
+RAW_ANNS = [3, 6, True, 2.0, [5], {'k': 12}, 'NUMBER_INT', None, 0]
+
+
 def ann_to_py(a):
     if a[0] == 'tok':
         return TOKENS[a[1]]
     if a[0] == 'oth':
         return Oth(a[1])
+    if a[0] == 'raw':
+        return RAW_ANNS[a[1]]
     if a[0] == 'cmt':
         import sys
         P = sys.modules['prettyprinter.prettyprinter']
@@ -67,6 +74,8 @@ def ann_to_sx(a):
         return '(tok %d)' % a[1]
     if a[0] == 'oth':
         return '(oth %d)' % a[1]
+    if a[0] == 'raw':
+        return '(oth 999)'
     import sec_strings
     return '(cmt %s)' % sec_strings.pchars(a[1]) if a[1] else '(cmt)'
 
